@@ -271,7 +271,15 @@ def to_model_param(p):
 # ------------------------------------------------------------------------------------------------------------
 # canonical JSON of real ASTs / parsed IRs
 # ------------------------------------------------------------------------------------------------------------
+def fold_neg(a):
+    """`-3` re-parses as UnaryOp(USub, Constant(3)): fold it back to the constant the emitter produced"""
+    if isinstance(a, ast.UnaryOp) and isinstance(a.op, ast.USub) and isinstance(a.operand, ast.Constant) and type(a.operand.value) in (int, float):
+        return ast.Constant(-a.operand.value)
+    return a
+
+
 def arg_j(a):
+    a = fold_neg(a)
     if isinstance(a, ast.Constant):
         return {"c": enc_val(a.value)}
     if isinstance(a, ast.Name):
@@ -283,7 +291,7 @@ def arg_j(a):
 
 def column_j(c):
     return {"args": [arg_j(a) for a in c.args],
-            "kws": [[k.arg, enc_val(k.value.value) if isinstance(k.value, ast.Constant) else {"code": ast.unparse(k.value).strip()}] for k in c.keywords]}
+            "kws": [[k.arg, enc_val(fold_neg(k.value).value) if isinstance(fold_neg(k.value), ast.Constant) else {"code": ast.unparse(k.value).strip()}] for k in c.keywords]}
 
 
 def is_call(n, name):
@@ -376,6 +384,14 @@ def real_ir(case):
 
 def impl_case(case):
     """All three emissions of one interface, their canonical skeletons, the parse of the *rendered source*, the oracle inputs."""
+    import contextlib
+    import io
+
+    with contextlib.redirect_stderr(io.StringIO()):  # the docstring parser prints failed type probes
+        return _impl_case(case)
+
+
+def _impl_case(case):
     E, P, EU, PU, to_code = _cdd()
     out = {}
     emitters = {"class": (E.sqlalchemy, P.sqlalchemy, class_j), "table": (E.sqlalchemy_table, P.sqlalchemy_table, lambda n: {"target": n.targets[0].id, "call": table_j(n.value)}),
@@ -676,6 +692,17 @@ def jd(x):
     return json.dumps(x, sort_keys=True, ensure_ascii=True)
 
 
+def reparse_norm(j):
+    """what a skeleton looks like after unparse + parse: a Name whose id is not an identifier is some other expression"""
+    if isinstance(j, dict):
+        if set(j) == {"n"} and isinstance(j["n"], str) and not j["n"].isidentifier():
+            return {"code": j["n"]}
+        return {k: reparse_norm(v) for k, v in j.items()}
+    if isinstance(j, list):
+        return [reparse_norm(x) for x in j]
+    return j
+
+
 def model_err(m):
     return "raises:" + m["error"] if "error" in m else None
 
@@ -760,7 +787,7 @@ def run(chk: core.Check) -> int:
                 continue
             got = o.get("parse_error") or o["parsed"]
             want = model_err(mp) or mp["ok"]
-            if "parse_error" in o and c.get("returns") and "error" not in mp:
+            if "parse_error" in o and c.get("returns"):
                 # the header docstring/comment (docstring emitter + parser) is not modelled; with a `returns` entry the real
                 # docstring parser can fail on the table comment — reported by the oracle, not a model disagreement
                 cov["model_unmodelled"] += 1
@@ -771,7 +798,7 @@ def run(chk: core.Check) -> int:
         t = r["table"]
         if "emit" in t and "ok" in m["table"] and "raises:unmodelled" not in (model_err(m["table_to_class"]), model_err(m["parsed_table_to_class"])):
             got = t.get("t2c_error") or [t.get("t2c"), t.get("t2c_parsed")]
-            want = model_err(m["table_to_class"]) or model_err(m["parsed_table_to_class"]) or [m["table_to_class"]["ok"], m["parsed_table_to_class"]["ok"]]
+            want = model_err(m["table_to_class"]) or model_err(m["parsed_table_to_class"]) or [reparse_norm(m["table_to_class"]["ok"]), m["parsed_table_to_class"]["ok"]]
             if jd(got) != jd(want):
                 n_dis["table_to_class"] += 1
                 chk.disagreement("C05 correspondence: sqlalchemy_table_to_class", replay, got, want)
